@@ -70,6 +70,17 @@ def has_own_node(g, i):
     return False
 
 
+def whole_blocks_inside(g, e):
+    """Every array-formula block that rectangle e touches lies wholly inside it."""
+    inside = {x for row in g.rect_ids(e) for x in row}
+    for i, c in g.cells.items():
+        if c['k'] == 'af':
+            blk = {x for row in g.rect_ids(['rng'] + list(c['rect'])) for x in row}
+            if blk & inside and not blk <= inside:
+                return False
+    return True
+
+
 def make_ovsets(g, rnd, n=3):
     """n abstract override sets {id: value} (+ how each may be supplied)."""
     consts = [i for i, c in g.cells.items() if c['k'] == 'c']
@@ -82,8 +93,27 @@ def make_ovsets(g, rnd, n=3):
         ov = {}
         style = 'cells'
         r = rnd.random()
+        if k == 0 and getattr(g, 'directed_ranges', None):
+            e = g.directed_ranges[0]
+            for row in g.rect_ids(e):
+                for x in row:
+                    ov[x] = G.rnd_const(rnd, 'n')
+            sets.append({'ov': ov, 'style': ('range', e)})
+            continue
         small = [e for e in rects if 1 < len([x for row in g.rect_ids(e) for x in row]) <= 4
                  and not any(x in g.reserved for row in g.rect_ids(e) for x in row)]
+        # rectangles that hold whole array-formula blocks (every block they touch lies
+        # inside them): a value supplied through the range replaces the block
+        blocks = [e for e in rects if 1 < len([x for row in g.rect_ids(e) for x in row]) <= 9
+                  and any(x in g.reserved for row in g.rect_ids(e) for x in row)
+                  and whole_blocks_inside(g, e)]
+        if blocks and r >= 0.2 and r < 0.45:
+            e = rnd.choice(blocks)
+            for row in g.rect_ids(e):
+                for x in row:
+                    ov[x] = G.rnd_const(rnd, 'n')
+            sets.append({'ov': ov, 'style': ('range', e)})
+            continue
         if r < 0.2 and small:
             e = rnd.choice(small)
             for row in g.rect_ids(e):
@@ -338,6 +368,8 @@ def range_override_hazard(g, ovset):
         return False
     for i in ovset['ov']:
         c = g.cells.get(i)
+        if c is not None and c['k'] in ('af', 'sp') and whole_blocks_inside(g, st[1]):
+            continue        # a whole array-formula block inside the range is replaced by it
         if c is None or c['k'] != 'c' or c['v']['k'] == 'e':
             return True
     return False
